@@ -77,3 +77,37 @@ def run(ctx):
                    "mirror implementations differ: only in %s: %s; only in %s: %s" % (a.split("::")[-2:], only_a[:6], b.split("::")[-2:], only_b[:6]),
                    ba.file, sample={"left": a, "right": b, "only_left": only_a[:10], "only_right": only_b[:10], "features": total})
     ctx.floor("C06.1", "mirror pairs", len(ctx.instances["C06.1"]), 22)
+
+    # ---- clause 2: tombstone sets of a run are add-only ---------------------------------------------
+    # A run's node / edge tombstone is what hides the copies of that key held by older runs and segments (key-based
+    # blocking in read_path_iters / read_path_neighbors).  Within a run the sets may therefore only grow: a `remove`, `clear`,
+    # `retain`, `take` ... on them (e.g. "un-delete on re-create", by analogy with the removed-property sets, which shadow
+    # per key and may shrink) makes older copies visible again and breaks neighbour multiplicity.
+    from ..mirutil import recv_field
+    ctx.rule("C06.2", "the tombstone sets of MemTable / L0Run are only ever added to (insert / extend) or moved whole into the frozen run")
+    TOMB = {("tombstoned_nodes", S + "memtable::MemTable"), ("tombstoned_edges", S + "memtable::MemTable"),
+            ("tombstoned_nodes", S + "snapshot::L0Run"), ("tombstoned_edges", S + "snapshot::L0Run")}
+    ADD = ("insert", "extend", "append")
+    n2 = 0
+    for i, b in sorted(F.bodies.items()):
+        if not i.startswith(S) or "::tests::" in i:
+            continue
+        k = {}
+        for c in b.calls():
+            if not c.args or c.args[0][0] not in ("c", "m"):
+                continue
+            fld = recv_field(b, c)
+            if not fld or tuple(fld) not in TOMB:
+                continue
+            l0 = c.args[0][1][0]
+            if not b.local_ty(l0).startswith("&mut"):
+                continue
+            n2 += 1
+            short = c.name.split("::")[-1]
+            kk = "%s.%s:%s" % (fld[1].split("::")[-1], fld[0], short)
+            k[kk] = k.get(kk, -1) + 1
+            ctx.instance("C06.2", "%s: %s (%s)" % (i, kk, c.loc()))
+            ctx.oblige(short in ADD, "C06.2", "%s:%s#%d" % (b.root or i, kk, k[kk]),
+                       "a run's tombstone set shrinks (`%s`): the tombstone is what hides older runs' copies of the key, so dropping it "
+                       "makes deleted nodes / relationships reappear in neighbour and node reads" % short, c.loc(), sample={"fn": i, "call": c.name})
+    ctx.floor("C06.2", "mutating calls on tombstone sets", n2, 2)
